@@ -1145,3 +1145,16 @@ TABLE["C02"] += [
     B("scoped-component-replaced-by-the-qualified-spelling", {"S9"},
       (HP, "            instantiation.name if part == scoped_template else part", "            instantiation.to_cpp() if part == scoped_template else part")),
 ]
+TABLE["C01"] += [
+    B("forward-declaration-base-not-stored", {"G11"},
+      (IP + "declaration.py", "        if parent_type:\n            self.parent_type = parent_type\n        else:", "        if parent_type:\n            pass\n        else:")),
+    B("variable-default-stored-only-for-basic-types", {"G11"},
+      (IP + "variable.py", "        self.default = default\n", "        if self.ctype.is_basic:\n            self.default = default\n")),
+]
+_DECL_PARENT = (TI + "declaration.py", "        self.parent = original.parent\n", "")
+# the base constructor already receives parent=original.parent: deleting the second assignment changes nothing
+TABLE["C02"] += [N("instantiated-declaration-parent-set-by-the-base-constructor-only", _DECL_PARENT)]
+TABLE["C08"] += [N("instantiated-declaration-parent-set-by-the-base-constructor-only", _DECL_PARENT)]
+_FUNC_PARENT = (TI + "function.py", "        self.parent = original.parent\n", "        self.parent = ''\n")
+TABLE["C02"] += [B("instantiated-function-detached-from-its-namespace", {"S10"}, _FUNC_PARENT)]
+TABLE["C08"] += [B("instantiated-function-detached-from-its-namespace", {"N9"}, _FUNC_PARENT)]
